@@ -148,7 +148,15 @@ def rule_tags(rep: Report, rid="C04.tags") -> None:
     info = I.loops[lid]
     el = ("elem", lid)
     # iterated pieces: X.split('@')[1:]
-    it = nf.push_cond_in(info.get("iter")) if info.get("iter") is not None else None
+    def push_deep(t, depth=0):
+        """push_cond_in, repeated inwards: the choice ends up at the innermost place where the alternatives differ"""
+        t = nf.push_cond_in(t)
+        if depth > 8 or not isinstance(t, tuple) or not t or t[0] in ("const", "ref", "cond"):
+            return t
+        return tuple(push_deep(x, depth + 1) if isinstance(x, tuple) and x and isinstance(x[0], str) else
+                     (tuple(push_deep(y, depth + 1) if isinstance(y, tuple) and y and isinstance(y[0], str) else y for y in x) if isinstance(x, tuple) else x)
+                     for x in t)
+    it = push_deep(info.get("iter")) if info.get("iter") is not None else None
     ok_it = it is not None and it[0] == "slice" and is_const(it[2], 1) and it[3] == NONE and it[1][0] == "call" and it[1][1] == ".split" \
         and len(it[1][2]) == 2 and is_const(it[1][2][1], "@")
     rep.ob(rid, "the pieces are the '@'-separated parts after the first (text before the first '@' is no tag)", ok_it, **kw,
@@ -159,12 +167,15 @@ def rule_tags(rep: Report, rid="C04.tags") -> None:
     ok_src = False
     if src is not None:
         s0 = src
-        if s0[0] == "call" and s0[1] == ".strip" and len(s0[2]) == 1:
+        # (the line is left-trimmed already: stripping it again on the right, or on both sides, removes the same characters)
+        while s0[0] == "call" and s0[1] in (".strip", ".rstrip") and len(s0[2]) == 1:
             s0 = s0[2][0]
         pm = _before_first_match(s0)
         if pm is not None:
             pat, subj = pm
-            ok_src = is_const(pat) and regexnf.same(pat[1], 0, r"\s#") and subj in (trimmed, ("call", ".strip", (trimmed,), ()))
+            while subj[0] == "call" and subj[1] in (".strip", ".rstrip") and len(subj[2]) == 1:
+                subj = subj[2][0]
+            ok_src = is_const(pat) and regexnf.same(pat[1], 0, r"\s#") and subj == trimmed
     rep.ob(rid, "the scanned text is the left-trimmed line up to a trailing ' #' comment; no leading characters are removed before the first tag",
            ok_src, **kw, expected="re.split(r'\\s#', trimmed.strip())[0]", found=fmt(src, I) if src else None)
     # column bookkeeping
@@ -212,6 +223,16 @@ def rule_tags(rep: Report, rid="C04.tags") -> None:
             if cc[0] == "call" and cc[1] in ("re.search",) and pp and is_const(cc[2][0]) and _str_parts(cc[2][1]) == _str_parts(tagv) \
                     and regexnf.same(cc[2][0][1], 0, r"\s"):
                 okg = True
+            # ... or asked character by character: some character of the tag is a blank (str.isspace and \s cover the same)
+            ex = nf.exists_form(I, c, tree) if p else None
+            if ex is not None:
+                it_, lid_, pred_ = ex
+                isspace = lambda f_: f_ == ("attr", ("builtin", "str"), "isspace")
+                over, what = it_, pred_
+                if it_[0] == "call" and it_[1] == "map" and len(it_[2]) == 2 and isspace(it_[2][0]) and pred_ == ("elem", lid_):
+                    over, what = it_[2][1], ("call", ".isspace", (("elem", lid_),), ())
+                if _str_parts(over) == _str_parts(tagv) and what in (("call", ".isspace", (("elem", lid_),), ()), ("call", "str.isspace", (("elem", lid_),), ())):
+                    okg = True
         cls = I.obj(n[1]).cls.name if isinstance(I.obj(n[1]), HInst) else None
         if okg and loc and set(loc) == {"line", "column"} and loc["column"][0] == phi and loc["line"][0] == ("attr", selft, N.LINENO) and cls == "ParserException":
             good += 1
@@ -266,11 +287,44 @@ def _is_str_term(t) -> bool:
     return False
 
 
+def _strip_form(x):
+    """``re.sub(P, '', s)`` with P removing whitespace at the ends only (``\\A\\s+``, ``\\s+\\Z``, or both as alternatives; ``*`` for ``+``)
+    is ``s.lstrip()`` / ``s.rstrip()`` / ``s.strip()`` - str.strip() and \\s cover the same characters."""
+    if not (x[0] == "call" and x[1] == "re.sub" and len(x[2]) == 3 and is_const(x[2][0]) and isinstance(x[2][0][1], str) and is_const(x[2][1], "")):
+        return x
+    fl = _re_flags(x[3])
+    if fl & ~re.UNICODE:
+        return x
+    try:
+        seq = regexnf.nf(x[2][0][1], fl)
+        ws = regexnf.nf(r"\s", 0)[0][3]
+    except Exception:
+        return x
+
+    def side(alt):
+        alt = list(alt)
+        if len(alt) == 2 and alt[0] == ("at", "begin") and alt[1][0] == "rep" and alt[1][1] in (0, 1) and alt[1][2] is None and alt[1][3] == ws:
+            return "l"
+        if len(alt) == 2 and alt[1] in (("at", "AT_END_STRING"), ("at", "end")) and alt[0][0] == "rep" and alt[0][1] in (0, 1) and alt[0][2] is None and alt[0][3] == ws:
+            return "r"
+        return None
+    alts = [list(b) for b in seq[0][1]] if len(seq) == 1 and seq[0][0] == "branch" else [list(seq)]
+    sides = [side(a) for a in alts]
+    if None in sides or not sides:
+        return x
+    name = ".strip" if set(sides) == {"l", "r"} else (".lstrip" if set(sides) == {"l"} else ".rstrip")
+    return ("call", name, (x[2][2],), ())
+
+
 def _str_parts(t):
     """Flatten a string concatenation term into parts, merging adjacent constants."""
     def parts(x):
         if x[0] == "binop" and x[1] == "Add":
             return parts(x[2]) + parts(x[3])
+        if x[0] == "call" and x[1] == "re.sub":
+            y = _strip_form(x)
+            if y is not x:
+                return parts(y)
         if x[0] == "call" and x[1] == "str" and len(x[2]) == 1 and not x[3] and _is_str_term(x[2][0]):
             return parts(x[2][0])          # str() of a string is that string
         if x[0] == "call" and x[1] == "str" and len(x[2]) == 1 and not x[3] and is_const(x[2][0]) and isinstance(x[2][0][1], int) \
@@ -777,6 +831,21 @@ def rule_split_init(rep: Report, rid="C04.cells", rid_trim=None) -> None:
         l = None
         if text[0] == "call" and text[1] == "re.sub" and len(text[2]) == 3 and is_const(text[2][0]) and is_const(text[2][1], ""):
             inner = text[2][2]
+            # the left trim: ``re.sub(P, '', cell)``, or ``cell[m.end():]`` with ``m = re.match(P, cell)`` (P may match nothing,
+            # so m is never None) - the same characters go, and m.end() is how many
+            cut = None
+            if inner[0] == "slice" and inner[1] == cell and inner[3] == NONE and inner[4] == NONE and inner[2][0] == "call" and inner[2][1] == ".end" \
+                    and len(inner[2][2]) == 1 and inner[2][2][0][0] == "call" and inner[2][2][0][1] == "re.match" and len(inner[2][2][0][2]) == 2 \
+                    and is_const(inner[2][2][0][2][0]) and inner[2][2][0][2][1] == cell:
+                mcall = inner[2][2][0]
+                try:
+                    can_be_empty = regexnf.nf(mcall[2][0][1], _re_flags(mcall[3]))
+                    can_be_empty = all(it_[0] == "at" or (it_[0] == "rep" and it_[1] == 0) for it_ in can_be_empty)
+                except Exception:
+                    can_be_empty = False
+                if can_be_empty:
+                    cut = inner[2]
+                    inner = ("call", "re.sub", (mcall[2][0], const(""), cell), mcall[3])
             if inner[0] == "call" and inner[1] == "re.sub" and len(inner[2]) == 3 and is_const(inner[2][0]) and is_const(inner[2][1], "") and inner[2][2] == cell:
                 f1, f2 = _re_flags(inner[3]), _re_flags(text[3])
                 ok_l = regexnf.same(inner[2][0][1], f1, r"^[^\S\n]*", re.U)
@@ -795,7 +864,10 @@ def rule_split_init(rep: Report, rid="C04.cells", rid_trim=None) -> None:
                    expected="re.sub('[^\\S\\n]*$', '', re.sub('^[^\\S\\n]*', '', cell))", found=fmt(text, I))
             continue
         want = ("binop", "Add", ("binop", "Add", col, ("attr", selft, N.INDENT)), ("binop", "Sub", ("call", "len", (cell,), ()), ("call", "len", (l,), ())))
-        rep.ob(rid, "cell column = splitter column + line indent + number of leading blanks removed", lin_eq(colt, want), **kw2, expected=fmt(want, I), found=fmt(colt, I))
+        ok_col = lin_eq(colt, want)
+        if not ok_col and cut is not None:
+            ok_col = lin_eq(colt, ("binop", "Add", ("binop", "Add", col, ("attr", selft, N.INDENT)), cut))      # m.end() is that number
+        rep.ob(rid, "cell column = splitter column + line indent + number of leading blanks removed", ok_col, **kw2, expected=fmt(want, I), found=fmt(colt, I))
 
 
 def rule_doc_escapes(rep: Report, rid="C12.doc") -> None:
